@@ -119,6 +119,7 @@ static void c03_phase(int G, int k, bool ortho, double buf, bool touchingWithBuf
         vector<P> fr = free_points(sc, G); vector<Poly> scS = scaled(sc);
         ctx.count("states"); ctx.sample((ortho ? "orthogonal " : "polyline ") + scene_str(sc));
         vector<pair<P, P>> eps; for (size_t a = 0; a < fr.size(); a++) for (size_t b = a + 1; b < fr.size(); b++) eps.push_back({fr[a], fr[b]});
+        try {
         if (!ortho) {
             // all connectors in one transaction (no nudging in polyline mode)
             Avoid::Router *r = mk_router(false, 0, buf, sc);
@@ -144,6 +145,7 @@ static void c03_phase(int G, int k, bool ortho, double buf, bool touchingWithBuf
                 delete r;
             }
         }
+        } catch (vpsc::CriticalFailure &f) { ctx.library_abort(f.what(), (ortho ? "orthogonal " : "polyline ") + mcx::fmt("buf=%g scene ", buf) + scene_str(sc)); }
         ctx.done_case();
     });
 }
@@ -156,6 +158,7 @@ static void c04_phase(int G, int k, double penCells, bool tris) {
         if (!ctx.next()) return;
         vector<P> fr = free_points(sc, G);
         ctx.count("states"); ctx.sample(mcx::fmt("pen=%g ", penCells) + scene_str(sc));
+        try {
         Avoid::Router *r = mk_router(false, penCells * S, 0, sc);
         vector<Avoid::ConnRef *> cs; vector<pair<P, P>> eps;
         for (size_t a = 0; a < fr.size(); a++) for (size_t b = a + 1; b < fr.size(); b++) { eps.push_back({fr[a], fr[b]}); cs.push_back(mk_conn(r, fr[a], fr[b])); }
@@ -180,6 +183,7 @@ static void c04_phase(int G, int k, double penCells, bool tris) {
             }
         }
         delete r;
+        } catch (vpsc::CriticalFailure &f) { ctx.library_abort(f.what(), mcx::fmt("polyline segmentPenalty=%g scene ", penCells) + scene_str(sc)); }
         ctx.done_case();
     });
 }
@@ -214,6 +218,7 @@ static void c05_phase(int G, int k, double penCells, bool dirs) {
         for (size_t a = 0; a < fr.size(); a++) for (size_t b = a + 1; b < fr.size(); b++) for (int da = 0; da < (dirs ? 5 : 1); da++) for (int db = 0; db < (dirs ? 5 : 1); db++) {
             if (dirs && da == 0 && db == 0) continue;
             ctx.count("transitions"); ctx.count("evaluations");
+            try {
             Avoid::Router *r = mk_router(true, penCells * S, 0, sc);
             Avoid::ConnRef *c = mk_conn(r, fr[a], fr[b], dl[da], dl[db]); r->processTransaction();
             bool diag = false, diag2 = false; double cost = ortho_cost(c->route(), penCells, diag); ortho_cost(c->displayRoute(), penCells, diag2);
@@ -236,6 +241,7 @@ static void c05_phase(int G, int k, double penCells, bool dirs) {
             }
             ctx.cls("cost_minus_length_in_bends", mcx::fmt("%d", (int)lround((cost - (fabs((double)fr[a].x - fr[b].x) + fabs((double)fr[a].y - fr[b].y))) / max(penCells, 1e-9))));
             delete r;
+            } catch (vpsc::CriticalFailure &f) { ctx.library_abort(f.what(), mcx::fmt("orthogonal segmentPenalty=%g scene ", penCells) + scene_str(sc) + mcx::fmt(" conn (%lld,%lld)->(%lld,%lld)", fr[a].x, fr[a].y, fr[b].x, fr[b].y)); }
         }
         ctx.done_case();
     });
